@@ -17,9 +17,10 @@ import (
 //
 //	amd_intlists  the composite literals of a function body whose elements are all foldable
 //	              integers, in source order                                  -> List (List Nat)
-//	amd_litops    every binary expression of a function body with an integer literal operand,
-//	              printed as "<op><value>" (literal on the right) or "<value><op>" (on the left),
-//	              sorted, with duplicates                                     -> List String
+//	amd_litops    every binary expression / compound assignment / ++ -- of a function body with an operand
+//	              that folds to an integer constant (named constants resolved, constant subexpressions
+//	              folded), printed as "<op><value>" (constant on the right) or "<value><op>" (on the
+//	              left), sorted, with duplicates                              -> List String
 //	amd_readseq   the calls of Arg (e.g. readAndCountSize, binary.Read) in a function body, in
 //	              order: "<byte order>:<what>" where <what> is the field name of a `&x.Field`
 //	              destination, or the declared type of a local `var` destination -> List String
@@ -55,39 +56,90 @@ func init() {
 			em.fail(it, "List String", "[]", "function not found")
 			return
 		}
-		var out []string
-		lit := func(e ast.Expr) (int64, bool) {
-			for {
-				if pe, ok := e.(*ast.ParenExpr); ok {
-					e = pe.X
-					continue
+		// Normal form (round 3), so that value-preserving rewrites give the same inventory: an operand counts as a
+		// literal when it FOLDS to an integer constant (literals, named package constants, parenthesised /
+		// unary / binary combinations of those, conversions to a basic integer type); a binary expression that
+		// folds as a whole is an operand, not an operation (`360*2` and a constant `blockBytes = 360*2` both
+		// read 720); `x op= c` counts like `x = x op c`, and `x++` / `x--` like `x += 1` / `x -= 1`.
+		basic := map[string]bool{"int": true, "int8": true, "int16": true, "int32": true, "int64": true, "uint": true,
+			"uint8": true, "uint16": true, "uint32": true, "uint64": true, "uintptr": true, "byte": true}
+		locals := map[string]bool{} // names declared inside the function shadow package constants
+		ast.Inspect(fd, func(n ast.Node) bool {
+			switch x := n.(type) {
+			case *ast.AssignStmt:
+				if x.Tok == token.DEFINE {
+					for _, l := range x.Lhs {
+						if id, ok := l.(*ast.Ident); ok {
+							locals[id.Name] = true
+						}
+					}
 				}
-				break
-			}
-			if bl, ok := e.(*ast.BasicLit); ok && bl.Kind == token.INT {
-				return p.eval(bl, 0)
-			}
-			if ue, ok := e.(*ast.UnaryExpr); ok && ue.Op == token.XOR { // ^1
-				if bl, ok := ue.X.(*ast.BasicLit); ok && bl.Kind == token.INT {
-					v, ok := p.eval(bl, 0)
-					return ^v, ok
+			case *ast.ValueSpec:
+				for _, id := range x.Names {
+					locals[id.Name] = true
+				}
+			case *ast.Field:
+				for _, id := range x.Names {
+					locals[id.Name] = true
+				}
+			case *ast.RangeStmt:
+				for _, e := range []ast.Expr{x.Key, x.Value} {
+					if id, ok := e.(*ast.Ident); ok {
+						locals[id.Name] = true
+					}
 				}
 			}
-			return 0, false
+			return true
+		})
+		var pure func(e ast.Expr) bool
+		pure = func(e ast.Expr) bool {
+			switch x := e.(type) {
+			case *ast.BasicLit:
+				return x.Kind == token.INT || x.Kind == token.CHAR
+			case *ast.Ident:
+				return !locals[x.Name]
+			case *ast.ParenExpr:
+				return pure(x.X)
+			case *ast.UnaryExpr:
+				return pure(x.X)
+			case *ast.BinaryExpr:
+				return pure(x.X) && pure(x.Y)
+			case *ast.CallExpr:
+				id, ok := x.Fun.(*ast.Ident)
+				return ok && basic[id.Name] && len(x.Args) == 1 && pure(x.Args[0])
+			}
+			return false
 		}
-		ast.Inspect(fd.Body, func(n ast.Node) bool {
-			be, ok := n.(*ast.BinaryExpr)
-			if !ok {
-				return true
+		lit := func(e ast.Expr) (int64, bool) {
+			if !pure(e) {
+				return 0, false
 			}
-			if v, ok := lit(be.Y); ok {
-				if w, ok := lit(be.X); ok {
-					out = append(out, fmt.Sprintf("%d%s%d", w, be.Op, v))
-				} else {
-					out = append(out, fmt.Sprintf("%s%d", be.Op, v))
+			return p.eval(e, 0)
+		}
+		var out []string
+		ast.Inspect(fd.Body, func(n ast.Node) bool {
+			switch x := n.(type) {
+			case *ast.BinaryExpr:
+				if _, ok := lit(x); ok {
+					return false // a constant as a whole: an operand of whatever uses it
 				}
-			} else if v, ok := lit(be.X); ok {
-				out = append(out, fmt.Sprintf("%d%s", v, be.Op))
+				if v, ok := lit(x.Y); ok {
+					out = append(out, fmt.Sprintf("%s%d", x.Op, v))
+				} else if v, ok := lit(x.X); ok {
+					out = append(out, fmt.Sprintf("%d%s", v, x.Op))
+				}
+			case *ast.AssignStmt:
+				if x.Tok != token.ASSIGN && x.Tok != token.DEFINE && len(x.Rhs) == 1 {
+					if v, ok := lit(x.Rhs[0]); ok {
+						out = append(out, fmt.Sprintf("%s%d", strings.TrimSuffix(x.Tok.String(), "="), v))
+					}
+				}
+			case *ast.IncDecStmt:
+				if x.Tok == token.INC {
+					out = append(out, "+1")
+				} else {
+					out = append(out, "-1")
+				}
 			}
 			return true
 		})
